@@ -142,12 +142,29 @@ func (ii *InsertionIndex) Unmarshal(r io.Reader) error {
 	d := cbor.NewDecoder(r)
 	for i := int64(0); i < length; i++ {
 		var rec Record
-		if err := d.Decode(&rec); err != nil {
+		if err := decodeRecord(d, &rec); err != nil {
+			return err
+		}
+		// newRecordDigest panics on a record without a usable multihash
+		if !rec.Cid.Defined() {
+			return errors.New("index record without a CID")
+		}
+		if _, err := multihash.Decode(rec.Hash()); err != nil {
 			return err
 		}
 		ii.items.InsertNoReplace(newRecordDigest(rec))
 	}
 	return nil
+}
+
+// decodeRecord decodes one record; the CBOR decoder panics on some malformed input.
+func decodeRecord(d *cbor.Decoder, rec *Record) (err error) {
+	defer func() {
+		if r := recover(); r != nil {
+			err = fmt.Errorf("malformed index record: %v", r)
+		}
+	}()
+	return d.Decode(rec)
 }
 
 func (ii *InsertionIndex) ForEach(f func(multihash.Multihash, uint64) error) error {
